@@ -4,7 +4,7 @@ set -u
 patch=$1; pid=$2; tier=${3:-quick}
 cd /repo || exit 2
 if ! git diff --quiet; then echo "/repo dirty"; exit 2; fi
-git apply "$patch" 2>/dev/null || patch -p1 -s --fuzz=3 --no-backup-if-mismatch < "$patch" || { echo "patch does not apply"; git checkout -- .; exit 2; }
+git apply "$patch" 2>/dev/null || patch -p1 -s --fuzz=3 --no-backup-if-mismatch < "$patch" || { echo "patch does not apply"; git checkout -- .; find . -name "*.rej" -delete; find . -name "*.orig" -delete; exit 2; }
 find . -name "*.orig" -delete; find . -name "*.rej" -delete
 trap 'git -C /repo checkout -- . ' EXIT
 cd /verif && ./check "$pid" --tier "$tier" 2>&1 | grep -v "^  clause" | tail -${TAIL:-6}
